@@ -964,15 +964,15 @@ class TrajectoryStore:
 
         # Otherwise, if the store is linked to external NetCDF files, attempt
         # to load the requested trajectory into the cache.
+        loaded = None
         if self.nc_linked:
-            self._load_trajectory(idx)
+            loaded = self._load_trajectory(idx)
 
         # Load failed or the index is unknown.
-        if idx not in self._trajectories:
+        if loaded is None:
             raise IndexError('Trajectory index out of range')
 
-        # Return the trajectory from the cache.
-        return self._trajectories[idx]
+        return loaded
 
     def __iter__(self) -> Iterator[Trajectory]:
         """Iterator over trajectories in store in index order."""
@@ -1644,7 +1644,7 @@ class TrajectoryStore:
         index_group.variables['trajectory_index'][:] = [idx for idx, _ in id_pairs]
         index_dataset.close()
 
-    def _load_trajectory(self, index: int) -> None:
+    def _load_trajectory(self, index: int) -> Trajectory | None:
         """Load a trajectory at the given index from the NetCDF file(s)."""
         data = {}
         npoints: int | None = None
@@ -1665,7 +1665,7 @@ class TrajectoryStore:
             if nc_files.size_index is not None:
                 file_index = bisect.bisect_left(nc_files.size_index, index + 1)
                 if file_index >= len(nc_files.size_index):
-                    return
+                    return None
                 group_index = index - nc_files.size_index[file_index]
             group = nc_files.groups[fs_name][file_index]
 
@@ -1703,8 +1703,14 @@ class TrajectoryStore:
         for k, v in data.items():
             setattr(traj, k, v)
 
-        # Save the trajectory we've just loaded into the cache.
-        self._trajectories[index] = traj
+        # Save the trajectory we've just loaded into the cache. (A trajectory
+        # that is larger than the whole cache cannot be cached: it is handed
+        # to the caller all the same.)
+        try:
+            self._trajectories[index] = traj
+        except ValueError:
+            pass
+        return traj
 
     def _write_trajectory(self, index: int) -> None:
         """Write a trajectory at the given index to the NetCDF file(s)."""
